@@ -94,6 +94,12 @@ def templates():
     T.append(('set radicals: C-H scission',
               [('C', None), ('H', None)], [(1, 0, 'single')],
               [('break', 0, 1, None), ('radset', 0, 1), ('radset', 1, 1)]))
+    T.append(('set radicals on a radical centre: C.-H to carbene',
+              [('C', '.'), ('H', None)], [(1, 0, 'single')],
+              [('break', 0, 1, None), ('radset', 0, 2), ('rad+', 1)]))
+    T.append(('set radicals to zero: diradical recombination',
+              [('C', '.'), ('C', '.')], [(1, 0, 'single')],
+              [('inc', 0, 1), ('radset', 0, 0), ('radset', 1, 0)]))
     T.append(('ring opening of a C-C ring bond', [('C', None), ('C', None)],
               [(1, 0, 'single')],
               [('break', 0, 1, None), ('rad+', 0), ('rad+', 1)]))
